@@ -15,6 +15,7 @@ CONSTANTS
   BinP = {"foo", "m"}
   BinF = {"mul", "add"}
   CopyP = {"kfoo"}
+  PickleP = {"kfoo", "m"}
   ConvHows = {"to"}
 INIT Init
 NEXT Next
